@@ -62,7 +62,9 @@ Record ctx := {
   c_value : option rv;         (* IterMapValue *)
   c_base : option N;           (* IterBasePointer *)
   c_payload : option rv;       (* VariantPayloadName *)
-  c_wasm_results : list N;     (* what the callee of CallWasm returns *)
+  c_wasm_results : list N;     (* what the callee of CallWasm returns … *)
+  c_callee : option (wsig -> list N -> mstate -> option (list N * mstate));
+                               (* … or a callee that also writes memory (results through a return pointer) *)
   c_iface_result : option val; (* what the user function behind CallInterface returns *)
 }.
 
@@ -176,10 +178,10 @@ Section sem.
 
   Definition set_iter (c : ctx) (elem value : option rv) (base : option N) : ctx :=
     {| c_args := c_args c; c_elem := elem; c_value := value; c_base := base; c_payload := c_payload c;
-       c_wasm_results := c_wasm_results c; c_iface_result := c_iface_result c |}.
+       c_wasm_results := c_wasm_results c; c_callee := c_callee c; c_iface_result := c_iface_result c |}.
   Definition set_payload (c : ctx) (p : option rv) : ctx :=
     {| c_args := c_args c; c_elem := c_elem c; c_value := c_value c; c_base := c_base c; c_payload := p;
-       c_wasm_results := c_wasm_results c; c_iface_result := c_iface_result c |}.
+       c_wasm_results := c_wasm_results c; c_callee := c_callee c; c_iface_result := c_iface_result c |}.
 
   Definition mask32 (x : N) : N := x mod 2 ^ 32.
 
@@ -288,9 +290,20 @@ Section sem.
     | VariantPayloadName, [] => match c_payload c with Some v => ROk ([v], s) | None => ROk ([RV (VRec [])], s) end
     | CallWasm sg, _ =>
         xs <-- all_c args ;;
-        if (length (c_wasm_results c) =? length (s_results sg))%nat
-        then ROk (map RC (c_wasm_results c), eff s (FCallWasm sg xs))
-        else RErr EShape
+        match c_callee c with
+        | Some callee =>
+            match callee sg xs (ms s) with
+            | Some (rs, m') =>
+                if (length rs =? length (s_results sg))%nat
+                then ROk (map RC rs, eff (with_ms s m') (FCallWasm sg xs))
+                else RErr EShape
+            | None => RErr EShape
+            end
+        | None =>
+            if (length (c_wasm_results c) =? length (s_results sg))%nat
+            then ROk (map RC (c_wasm_results c), eff s (FCallWasm sg xs))
+            else RErr EShape
+        end
     | CallInterface n has_res _, _ =>
         vs <-- all_v args ;;
         match has_res, c_iface_result c with
